@@ -83,7 +83,9 @@ func newRegion(loops [][]kit.V2) (*region, error) {
 				r.runs++
 			case math.Abs(s) <= 1e-6:
 				r.band++
-			case (s > 0) != (a > 0):
+			case ((s > 0) != (a > 0)) != (r.depth[i]%2 == 1):
+				// turning against the loop's direction; for a hole the roles swap (its convex corners
+				// are reflex corners of the region)
 				r.reflex++
 			}
 		}
@@ -215,7 +217,9 @@ func checkCover(r *region, tris [][3]kit.V2, opt coverOpts, o *kit.Obs) error {
 		for k, p := range probes {
 			in, ok := kit.EvenOdd2(r.segs, p, tolD)
 			if !ok {
-				undecided++
+				if k == 0 {
+					undecided++
+				}
 				continue
 			}
 			if !in {
@@ -236,7 +240,7 @@ func checkCover(r *region, tris [][3]kit.V2, opt coverOpts, o *kit.Obs) error {
 		}
 	}
 	if undecided > 0 {
-		o.Label("probes-on-boundary:some")
+		o.Label("centroid-on-boundary(undecided):some")
 	}
 	tolO := 1e-9*r.area + floor
 	for i := range proper {
@@ -258,4 +262,118 @@ func checkCover(r *region, tris [][3]kit.V2, opt coverOpts, o *kit.Obs) error {
 		return fmt.Errorf("triangle areas sum to %.17g but the region has area %.17g (difference %g, %d triangles of which %d degenerate)", sum, r.area, sum-r.area, len(tris), ndeg)
 	}
 	return nil
+}
+
+// tagOnDiagonal names the input class of the known finding "ear clipping ignores a vertex lying on the
+// ear's base": some reflex vertex of the polygon (colinear-run vertices removed first, as the library
+// does) lies, within 1e-9 diameters, on the open segment between two other vertices a, b, and that
+// segment runs inside the closed polygon (only such a segment can become the base of an ear: no polygon
+// edge crosses it and, cut at the vertices lying on it, none of its pieces is outside).
+const tagOnDiagonal = "ear-vertex-on-diagonal"
+
+// reflexVertexOnDiagonal reports whether loop 0 of the region belongs to that class.
+func reflexVertexOnDiagonal(r *region) bool {
+	l := r.loops[0]
+	n := len(l)
+	ccw := shoelace(l) > 0
+	var red []kit.V2
+	var reflex []bool
+	for k := range l {
+		p1, p2, p3 := l[(k+n-1)%n], l[k], l[(k+1)%n]
+		s := p2.Sub(p1).Unit().Cross(p3.Sub(p2).Unit())
+		if math.Abs(s) < 1e-10 {
+			continue
+		}
+		red = append(red, p2)
+		reflex = append(reflex, (s > 0) != ccw)
+	}
+	tol := 1e-9 * r.diam
+	for i, v := range red {
+		if !reflex[i] {
+			continue
+		}
+		for a := 0; a < len(red); a++ {
+			for b := a + 1; b < len(red); b++ {
+				if a == i || b == i {
+					continue
+				}
+				d := red[b].Sub(red[a])
+				len2 := d.Dot(d)
+				t := v.Sub(red[a]).Dot(d) / len2
+				if t <= 0 || t >= 1 {
+					continue
+				}
+				if math.Abs(kit.Orient2(red[a], red[b], v)) > tol*math.Sqrt(len2) {
+					continue
+				}
+				// cut ab at every vertex lying on it and probe the middle of every piece
+				ts := []float64{0, 1}
+				for _, w := range red {
+					tw := w.Sub(red[a]).Dot(d) / len2
+					if tw > 0 && tw < 1 && math.Abs(kit.Orient2(red[a], red[b], w)) <= tol*math.Sqrt(len2) {
+						ts = append(ts, tw)
+					}
+				}
+				ts = kit.SortedFloats(ts)
+				inside := true
+				for k := 0; k+1 < len(ts); k++ {
+					m := red[a].Add(d.Scale((ts[k] + ts[k+1]) / 2))
+					if in, ok := kit.EvenOdd2(r.segs, m, tol); ok && !in {
+						inside = false
+					}
+				}
+				for _, sg := range r.segs {
+					if tolerantCross(red[a], red[b], sg[0], sg[1], tol*r.diam) {
+						inside = false
+					}
+				}
+				if inside {
+					return true
+				}
+			}
+		}
+	}
+	return false
+}
+
+// skipKnownEar returns true when the case must be left out because the known finding is active.
+func skipKnownEar(r *region, o *kit.Obs) bool {
+	if !reflexVertexOnDiagonal(r) {
+		return false
+	}
+	o.Label("reflex-vertex-on-a-diagonal")
+	if kit.Excluded(tagOnDiagonal) {
+		kit.CountExcluded(tagOnDiagonal)
+		return true
+	}
+	return false
+}
+
+// tagFaceLine names the input class of the known finding "TriangulateFace picks its second basis vector
+// from rounding noise": some vertex other than the first two lies within 1e-9 diameters of the line
+// through the first two vertices (the first vertex is inside or next to a colinear run, or another
+// vertex happens to be aligned with the first edge).
+const tagFaceLine = "face-vertex-on-first-edge-line"
+
+func vertexOnFirstEdgeLine(r *region) bool {
+	l := r.loops[0]
+	d := l[1].Sub(l[0])
+	for _, p := range l[2:] {
+		if math.Abs(kit.Orient2(l[0], l[1], p)) <= 1e-9*r.diam*d.Norm() {
+			return true
+		}
+	}
+	return false
+}
+
+func skipKnownFace(r *region, o *kit.Obs) bool {
+	if !vertexOnFirstEdgeLine(r) {
+		return false
+	}
+	o.Label("vertex-on-first-edge-line")
+	if kit.Excluded(tagFaceLine) {
+		kit.CountExcluded(tagFaceLine)
+		return true
+	}
+	return false
 }
